@@ -388,7 +388,7 @@ Definition set_parents (new : id) (cs : list id) (l : list (id * node)) : list (
 
 Lemma set_parents_keys new cs l : akeys (set_parents new cs l) = akeys l.
 Proof.
-  unfold set_parents. revert l. induction cs as [|c cs IH]; intros l; cbn; [reflexivity|].
+  unfold set_parents. revert l. induction cs as [|c cs IH]; intros l; cbn [fold_left]; [reflexivity|].
   rewrite IH. destruct (Nat.eqb c new); [reflexivity|apply set_parent_of_keys].
 Qed.
 
